@@ -176,6 +176,77 @@ def judgeShots (scn : String) (steps : List (String × StepTruth)) (n : Nat) (ob
     | some c => c
     | none => v
 
+
+/-! ### redirects: which answer is "the response received"
+
+A target may answer 3xx with a `Location` header. With `redirect: false` (the default) the gun does not follow it: the
+3xx answer itself is the response received, whatever its `Location` says (also nothing, also something no URL parser
+accepts). With `redirect: true` the client follows 301 / 302 / 303 / 307 / 308 answers that carry a `Location`, and the
+LAST answer of the chain is the response received; a chain that cannot be followed to an answer (a `Location` that cannot
+be parsed, a next exchange that fails, a chain longer than the client's limit of ten requests) is a failed exchange. -/
+
+/-- what the `Location` header of an answer says -/
+inductive Loc where
+  /-- no header, or an empty one -/
+  | absent
+  /-- a reference a client can resolve; following it leads to the next element of the chain -/
+  | leadsOn
+  /-- a value no URL parser accepts -/
+  | unparsable
+  /-- a reference to a place that gives the same answer again, for ever -/
+  | loops
+  deriving Repr, DecidableEq, Inhabited
+
+inductive ChainHop where
+  /-- a complete answer with this status and this `Location` -/
+  | answer (status : Nat) (loc : Loc)
+  /-- the exchange the chain ends with, whatever it is -/
+  | last (t : Truth)
+  deriving Repr, DecidableEq, Inhabited
+
+/-- the statuses a client follows -/
+def isRedirectStatus (st : Nat) : Bool := st == 301 || st == 302 || st == 303 || st == 307 || st == 308
+
+/-- `n`: requests the client may still send, this one included -/
+def chainTruthN : Nat → Bool → List ChainHop → Truth
+  | _, _, [] => .failed
+  | _, _, .last t :: _ => t
+  | _, false, .answer st _ :: _ => .received st
+  | n, true, .answer st loc :: rest =>
+    if isRedirectStatus st then
+      match loc with
+      | .absent => .received st
+      | .unparsable => .failed
+      | .loops => .failed
+      | .leadsOn => if n ≤ 1 then .failed else chainTruthN (n - 1) true rest
+    else .received st
+
+/-- the client's limit: ten requests for one shot -/
+def maxRequests : Nat := 10
+
+def chainTruth (redirect : Bool) (hops : List ChainHop) : Truth := chainTruthN maxRequests redirect hops
+
+/-! ### steps the target saw
+
+Ground truth of "executed step" in runs that are cut short (the instance is cancelled in the middle of a shot): the target
+logs which steps it received a request of. Every such step has exactly one sample per request. -/
+
+/-- first step whose number of samples is not the number of requests the target saw for it -/
+def hitsMismatch (scn : String) (obs : List Obs) : List (String × Nat) → Option String
+  | [] => none
+  | (name, hits) :: rest =>
+    let got := (obs.filter fun o => isStepTag scn name o.tags).length
+    if got ≠ hits then some s!"fail:count:the target saw {hits} request(s) of step {scn}.{name} but {got} sample(s) carry its tag"
+    else hitsMismatch scn obs rest
+
+/-- gRPC scenario: samples carry `scenario.tag` verbatim -/
+def hitsMismatchGrpc (scn : String) (obs : List Obs) : List (String × Nat) → Option String
+  | [] => none
+  | (tag, hits) :: rest =>
+    let got := (obs.filter fun o => o.tags == scn ++ "." ++ tag).length
+    if got ≠ hits then some s!"fail:count:the target saw {hits} call(s) of {scn}.{tag} but {got} sample(s) carry its tag"
+    else hitsMismatchGrpc scn obs rest
+
 /-! ### gRPC -/
 
 /-- one gRPC request: its tag and, when the call was made, the status code the target answered -/
